@@ -223,8 +223,17 @@ impl World {
             let t0 = kernel::now();
             // sleep in slices so that we can notice activity early
             let mut quiet = true;
+            let bytes0 = with(|k| k.net.inter_node_bytes);
             while kernel::now() < t0 + window_ms * MS {
-                kernel::sleep_ns((window_ms * MS / 4).max(MS));
+                // wake up early when the nodes exchange an absurd volume (messages growing every round)
+                let until = kernel::now() + (window_ms * MS / 4).max(MS);
+                kernel::wait(
+                    Wait::Any(vec![Wait::Until(until), Wait::Cond(std::rc::Rc::new(move |k: &kernel::Kernel| if k.net.inter_node_bytes > bytes0 + (8 << 20) { kernel::Ready::Yes } else { kernel::Ready::No }))]),
+                    true,
+                );
+                if with(|k| k.net.inter_node_bytes) > bytes0 + (8 << 20) {
+                    return false;
+                }
                 if self.inter_node_lines() != a {
                     quiet = false;
                     break;
